@@ -43,8 +43,10 @@ struct fld { size_t n0, n1, v0, v1, t0, t1, end; int match; };	/* name, raw valu
 
 void harness(void) {
 	V_BEGIN();
-	uint8_t *buf = (uint8_t *)v_alloc(TOTAL);
-	uint8_t *look = (uint8_t *)v_alloc(LOOKLEN);
+	static uint8_t buf_store[TOTAL];	/* exactly sized object (static: CBMC constant-propagates through it, unlike malloc) */
+	uint8_t *buf = buf_store;
+	static uint8_t look_store[LOOKLEN];
+	uint8_t *look = look_store;
 	size_t pos = 0, si = 0, lpos = 0;
 	struct fld f[3];
 	memset(f, 0, sizeof(f));
